@@ -18,6 +18,7 @@ func init() {
 type instOpts struct {
 	finale bool // end with a DECIDE exchange so that the subject reports a decision
 	skew   bool // large powers plus dust members with zero scaled power
+	huge   int  // > 0: byte-scale raw powers, the table's total has this many bits and one puppet holds 50-75 % of it
 	supp   func(cur gpbft.PowerEntries) gpbft.SupplementalData
 }
 
@@ -40,6 +41,51 @@ func genInstTraceOpt(r *rng, viol func(clause, sig, detail string), io instOpts)
 		for k := 0; k < 1+r.intn(2); k++ {
 			powers = append(powers, int64(1+r.intn(3))) // dust: scaled power 0
 			members++
+		}
+	}
+	if io.huge > 0 {
+		// one dominant puppet (never the subject), then everything scaled so that the total has exactly io.huge bits: the
+		// scaling arithmetic 0xffff*power/total then runs next to a native integer width with a large numerator
+		var rest int64
+		for i := range powers {
+			if i != 1 {
+				rest += powers[i]
+			}
+		}
+		powers[1] = rest * int64(1+r.intn(3))
+		var sum int64
+		for _, p := range powers {
+			sum += p
+		}
+		bits := io.huge
+		if bits > 62 {
+			bits = 62
+		}
+		unit := (int64(1) << uint(bits-1)) / sum
+		if unit < 1 {
+			unit = 1
+		}
+		unit += unit * int64(r.intn(900)) / 1000
+		for i := range powers {
+			powers[i] *= unit
+		}
+		// keep the total inside [2^(bits-1), 2^bits)
+		for {
+			var tot int64
+			for _, p := range powers {
+				tot += p
+			}
+			if tot < int64(1)<<uint(bits-1) {
+				powers[1] += int64(1)<<uint(bits-1) - tot
+				continue
+			}
+			if bits < 62 && tot >= int64(1)<<uint(bits) {
+				for i := range powers {
+					powers[i] = powers[i]/2 + 1
+				}
+				continue
+			}
+			break
 		}
 	}
 	base := mkTipset(0, "base")
@@ -398,7 +444,7 @@ func (m *instMonitor) afterEvent() {
 							pw += m.power(id)
 						}
 					}
-					if indepStrong(pw, d.pt.ScaledTotal) {
+					if indepStrong(pw, d.scaledTotal) {
 						want = pre
 						break
 					}
@@ -431,14 +477,14 @@ func (m *instMonitor) afterEvent() {
 						support += m.power(id)
 					}
 				}
-				if indepStrong(support, d.pt.ScaledTotal) {
+				if indepStrong(support, d.scaledTotal) {
 					m.viol("it never commits bottom while holding a strong PREPARE quorum for its proposal", "c07-commit-bottom-with-quorum", fmt.Sprintf("round %d proposal %s", r, pv))
 				}
 				timeout := time.Duration(d.p.VerifPhaseTimeout(r, false))
-				possible := indepStrong(support+d.pt.ScaledTotal-voted, d.pt.ScaledTotal)
+				possible := indepStrong(support+d.scaledTotal-voted, d.scaledTotal)
 				if d.now.Before(m.prepAt[r].Add(timeout)) && possible {
 					m.viol("it never commits bottom before the PREPARE timeout unless that quorum has become impossible", "c07-commit-bottom-early",
-						fmt.Sprintf("round %d proposal %s support %d voted %d of %d at %v (PREPARE began %v, timeout %v)", r, pv, support, voted, d.pt.ScaledTotal, d.now.Sub(d.t0), m.prepAt[r].Sub(d.t0), timeout))
+						fmt.Sprintf("round %d proposal %s support %d voted %d of %d at %v (PREPARE began %v, timeout %v)", r, pv, support, voted, d.scaledTotal, d.now.Sub(d.t0), m.prepAt[r].Sub(d.t0), timeout))
 				}
 			}
 		}
